@@ -123,6 +123,7 @@ func TestDriveC09(t *testing.T) {
 	self, err := os.Executable()
 	must(err)
 	restarts := 0
+	hangs := 0
 	for from < len(scs) {
 		cmd := exec.Command(self, "-test.run", "^TestDriveC09$", "-test.timeout", "1500s")
 		cmd.Env = append(os.Environ(), "VERIF_C09_CHILD=1", "VERIF_C09_FROM="+strconv.Itoa(from))
@@ -182,6 +183,15 @@ func TestDriveC09(t *testing.T) {
 		f.Close()
 		from = open + 1
 		restarts++
+		if hung {
+			hangs++
+			if hangs >= 3 {
+				// scenario after scenario hangs (each costs the watchdog's 90 s): what was to be observed has been
+				// observed three times over, the rest of this shard's scenarios is not driven
+				t.Logf("three scenarios hung: the remaining %d scenarios are not driven", len(scs)-from)
+				break
+			}
+		}
 		if restarts > len(scs) {
 			t.Fatal("too many child restarts")
 		}
